@@ -6,7 +6,14 @@ same object built with only its mandatory arguments (absent optional data: no si
 stop-line references, default light direction / offset, no first occurrences, default shape centre / orientation,
 default location ...).  Only defaults that the XML format of C01 can carry as well are produced (an intersection
 incoming without lanelets, a traffic light without cycle, a GeoTransformation without reference and an Environment
-with unset members are rejected by BOTH writers: outside 'scenarios as in C01')."""
+with unset members are rejected by BOTH writers: outside 'scenarios as in C01').  Traffic lights additionally get
+independent `active` flags for the light and for its cycle (the format carries the light's).
+variant "twins": the scenario of the seed plus LAST-BIT TWINS - further occupancies / obstacles / goal regions whose
+shapes are copies of shapes already in the scenario with some coordinates moved to the adjacent double
+(numpy.nextafter) or zero given the other sign: values that agree to ~15 digits but are different doubles, which only
+a bit-level comparison tells apart ('every real-valued quantity bit-identical').
+The oracle of C02 lives here too: write -> read -> canonical content (vlib/canon.py) compared with tolerance 0 AND,
+beyond canon.compare's relative slack of 1e-12, every float compared by its 8 bytes."""
 import os
 import random
 import tempfile
@@ -31,8 +38,8 @@ from vlib import canon
 
 
 def gen_cases(rng, n):
-    return [{"op": "pb", "seed": rng.randrange(1 << 40), "fmt": "pb", "edge": rng.random() < 0.3, "variant": "defaults"}
-            for _ in range(n)]
+    return [{"op": "pb", "seed": rng.randrange(1 << 40), "fmt": "pb", "edge": rng.random() < 0.3,
+             "variant": "defaults" if i % 2 == 0 else "twins"} for i in range(n)]
 
 
 def plain_shape(r, s):
@@ -50,6 +57,14 @@ def plain_initial(st):
 
 
 def build(case):
+    if not case.get("variant"):
+        return codec_run.build(case)
+    if case["variant"] == "twins":
+        return build_twins(case)
+    return build_defaults(case)
+
+
+def build_defaults(case):
     sc, pps, meta = Gen(case["seed"], "pb", case.get("edge", False)).build()
     r = random.Random(case["seed"] ^ 0x5DEECE66D)
 
@@ -65,6 +80,11 @@ def build(case):
     for t in old.traffic_lights:
         if flip():
             t = TrafficLight(t.traffic_light_id, t.position, TrafficLightCycle(list(t.traffic_light_cycle.cycle_elements)))
+        elif flip():
+            c = t.traffic_light_cycle
+            t = TrafficLight(t.traffic_light_id, t.position,
+                             TrafficLightCycle(list(c.cycle_elements), time_offset=c.time_offset, active=flip()),
+                             active=flip(), direction=t.direction)
         net.add_traffic_light(t, set())
     for la in old.lanelets:
         if la.stop_line is not None and flip():
@@ -114,11 +134,77 @@ def build(case):
     return sc2, PlanningProblemSet(probs), meta
 
 
+def twin(r, s):
+    """a copy of shape s with some coordinates moved to the adjacent double / zero of the other sign"""
+    from commonroad.geometry.shape import Polygon, ShapeGroup
+
+    def nudge(x):
+        x = float(x)
+        k = r.random()
+        if k < 0.4:
+            return x
+        if x == 0.0:
+            return -x if k < 0.7 else float(np.nextafter(x, 1.0))
+        return float(np.nextafter(x, np.inf if k < 0.7 else -np.inf))
+    if isinstance(s, Rectangle):
+        return Rectangle(s.length, s.width, np.array([nudge(s.center[0]), nudge(s.center[1])]), nudge(s.orientation))
+    if isinstance(s, Circle):
+        return Circle(s.radius, np.array([nudge(s.center[0]), nudge(s.center[1])]))
+    if isinstance(s, Polygon):
+        vs = list(s.vertices)
+        if len(vs) > 1 and float(vs[0][0]) == float(vs[-1][0]) and float(vs[0][1]) == float(vs[-1][1]):
+            vs = vs[:-1]
+        return Polygon(np.array([[nudge(x), nudge(y)] for x, y in vs]))
+    if isinstance(s, ShapeGroup):
+        return ShapeGroup([twin(r, m) for m in s.shapes])
+    return s
+
+
+def build_twins(case):
+    from commonroad.prediction.prediction import Occupancy, SetBasedPrediction
+    sc, pps, meta = Gen(case["seed"], "pb", case.get("edge", False)).build()
+    r = random.Random(case["seed"] ^ 0x2545F4914F6CDD1D)
+    oid = 1 + max([o.obstacle_id for o in sc.obstacles] + [3000])
+    for o in list(sc.obstacles):
+        pred = getattr(o, "prediction", None)
+        if isinstance(pred, SetBasedPrediction) and pred.occupancy_set:
+            occs = list(pred.occupancy_set)
+            last = occs[-1].time_step
+            t = (last.end if isinstance(last, Interval) else last) + 1
+            for _ in range(r.randint(1, 3)):
+                occs.append(Occupancy(t, twin(r, r.choice(occs).shape)))
+                t += 1
+            new = SetBasedPrediction(pred.initial_time_step, occs)
+            sc.remove_obstacle(o)
+            if isinstance(o, PhantomObstacle):
+                o = PhantomObstacle(o.obstacle_id, new)
+            else:
+                o = DynamicObstacle(o.obstacle_id, o.obstacle_type, o.obstacle_shape, o.initial_state, new,
+                                    initial_signal_state=o.initial_signal_state, signal_series=o.signal_series)
+            sc.add_objects(o)
+        elif isinstance(o, (StaticObstacle, EnvironmentObstacle)) and r.random() < 0.7:
+            if isinstance(o, StaticObstacle):
+                sc.add_objects(StaticObstacle(oid, o.obstacle_type, twin(r, o.obstacle_shape), o.initial_state))
+            else:
+                sc.add_objects(EnvironmentObstacle(oid, o.obstacle_type, twin(r, o.obstacle_shape)))
+            oid += 1
+    probs = []
+    for p in pps.planning_problem_dict.values():
+        goals, log = list(p.goal.state_list), dict(p.goal.lanelets_of_goal_position or {})
+        for i, st in enumerate(list(goals)):
+            if i not in log and st.has_value("position") and not isinstance(st.position, np.ndarray) and r.random() < 0.7:
+                kw = {a: getattr(st, a) for a in st.attributes if getattr(st, a) is not None}
+                kw["position"] = twin(r, st.position)
+                goals.append(CustomState(**kw))
+        probs.append(PlanningProblem(p.planning_problem_id, p.initial_state, GoalRegion(goals, log or None)))
+    return sc, PlanningProblemSet(probs), meta
+
+
 _CACHE = {}
 
 
 def roundtrip(case):
-    k = (case["seed"], case.get("edge"))
+    k = (case["seed"], case.get("edge"), case.get("variant"))
     if k in _CACHE:
         return _CACHE[k]
     sc, pps, meta = build(case)
@@ -137,7 +223,10 @@ def roundtrip(case):
         except Exception as e:  # noqa
             out.update(stage="read", error=f"{type(e).__name__}: {str(e)[:200]}")
             return out
-        out["diffs"] = canon.compare(exp, canon.canon(sc2, pps2, "pb"), 0.0, limit=60)
+        got = canon.canon(sc2, pps2, "pb")
+        out["diffs"] = canon.compare(exp, got, 0.0, limit=60)
+        if not out["diffs"]:
+            out["diffs"] = bit_diffs(exp, got, limit=60)
         return out
     finally:
         for f in os.listdir(d):
@@ -148,16 +237,34 @@ def roundtrip(case):
         _CACHE[k] = out
 
 
+def bit_diffs(a, b, path="", out=None, limit=60):
+    """paths where two canonical values of equal structure hold floats that are not the same 8 bytes"""
+    import struct
+    out = [] if out is None else out
+    if len(out) >= limit:
+        return out
+    if isinstance(a, float) and isinstance(b, float):
+        if struct.pack(">d", a) != struct.pack(">d", b):
+            out.append(f"{path}: {a!r} ({struct.pack('>d', a).hex()}) != {b!r} ({struct.pack('>d', b).hex()}) bitwise")
+    elif isinstance(a, dict) and isinstance(b, dict):
+        for k in sorted(set(a) & set(b), key=str):
+            bit_diffs(a[k], b[k], f"{path}.{k}", out, limit)
+    elif isinstance(a, list) and isinstance(b, list):
+        for i, (x, y) in enumerate(zip(a, b)):
+            bit_diffs(x, y, f"{path}[{i}]", out, limit)
+    return out
+
+
 def oracle_all(case):
     """every distinct kind of difference (so that a listed finding cannot mask another one)"""
     r = roundtrip(case)
     if r["stage"] != "ok":
         return [(f"pb:{r['stage']}:{r['error'].split(':')[0]}",
-                 f"{r['stage']} failed for generated scenario seed={case['seed']} (constructor defaults): {r['error']}")]
+                 f"{r['stage']} failed for generated scenario seed={case['seed']} (variant {case.get('variant')}): {r['error']}")]
     out, seen = [], set()
     for d in r["diffs"]:
         sg = f"pb:{canon.signature(d)}"
         if sg not in seen:
             seen.add(sg)
-            out.append((sg, f"read-back differs (seed={case['seed']}, constructor defaults): {d}"))
+            out.append((sg, f"read-back differs (seed={case['seed']}, variant={case.get('variant')}): {d}"))
     return out
